@@ -100,6 +100,10 @@ bool binson_parser_reset(binson_parser *parser)
         return false;
     }
 
+    parser->depth = 0;
+    parser->buffer_used = 0;
+    parser->current_state = &parser->state[0];
+
     if (parser->buffer_size < BINSON_OBJECT_MINIMUM_SIZE) {
         parser->error_flags = BINSON_ERROR_RANGE;
         return false;
